@@ -95,6 +95,7 @@ fn judge<I: Inst>(f: &Fields, st: &mut Stats) -> Result<(), String> {
     let o = observe(&p);
     let s = text(&p).map_err(|m| format!("[{}] to_string() panicked for {f:?}: {m}", I::NAME))?;
     check_shape(&o, &s).map_err(|m| format!("[{}] {m}", I::NAME))?;
+    crate::api::check_flags(&p, &s, I::NAME)?;
     let esc = needs_escape(&o);
     st.class_if(esc, "needs-escaping");
     st.class_if(I::TYPED, "typed");
@@ -178,6 +179,7 @@ pub fn parsed<I: ParseInst>(s: &str, st: &mut Stats) -> Result<(), String> {
     let o = observe(&p);
     let t = text(&p).map_err(|m| format!("[{}] to_string() panicked for the PURL parsed from {s:?}: {m}", I::NAME))?;
     check_shape(&o, &t).map_err(|m| format!("[{}] parsed from {s:?}: {m}", I::NAME))?;
+    crate::api::check_flags(&p, &t, I::NAME)?;
     st.class("parsed-value");
     if needs_escape(&o) {
         st.nontrivial(&(I::NAME, &o), || json!({ "inst": I::NAME, "parsed_from": s, "string": t }));
